@@ -363,7 +363,8 @@ def splitAudioOnTier(
     orderOfMagnitude = int(math.floor(math.log10(len(entries))))
 
     # We want one more zero in the output than the order of magnitude
-    outputTemplate = "%s_%%0%dd" % (name, orderOfMagnitude + 1)
+    # (a percent sign in the file name is not part of the number format)
+    outputTemplate = "%s_%%0%dd" % (name.replace("%", "%%"), orderOfMagnitude + 1)
 
     firstWarning = True
 
